@@ -105,6 +105,10 @@ def _guard_pole(f, name):
             raise Unjudgeable("pole_or_domain:" + name)
         except (TypeError, NotImplementedError):
             raise Unjudgeable("oracle_unsupported:" + name)
+        except Unjudgeable:
+            raise
+        except (RecursionError, ArithmeticError, AssertionError, IndexError, KeyError, AttributeError):
+            raise Unjudgeable("oracle_failed:" + name)  # mpmath itself gave up (e.g. gammainc recursion)
         return _chk(r, name)
     return g
 
